@@ -4,7 +4,7 @@ missing key, update of a vertex that is not in the queue, exhausted fuel, spanne
 Runtime half (NOT a theorem; labelled partial): every correspondence harness is rebuilt from /repo's working tree with
 -fsanitize=address,undefined (leak detection on) and fed the same generated valid inputs as the properties' own checks; any
 sanitizer report is a concrete failing input."""
-import json, os, subprocess, sys, glob, shutil, concurrent.futures as cf
+import re, json, os, subprocess, sys, glob, shutil, concurrent.futures as cf
 import lib
 
 PID = "C07"
@@ -22,6 +22,19 @@ def run_sub(pid, tier, seed, build, sanlog):
     try:
         p = subprocess.run([sys.executable, os.path.join(lib.ROOT, "tools", "check.py"), pid, "--tier", tier, "--seed", str(seed)],
                            cwd=lib.ROOT, env=env, capture_output=True, text=True, timeout=3000)
+        # a run of the sanitizer build that ends in a crash, an abort or an exception of the standard library's own consistency checks (std::length_error
+        # from an inverted iterator range, std::bad_alloc from a wrapped size, std::out_of_range) on a VALID input is memory misbehaviour the sanitizers
+        # have no report format for: keep those findings of the sub-check (with its replay file)
+        crashes = []
+        lines = p.stdout.splitlines()
+        for i, l in enumerate(lines):
+            if l.startswith("DETAIL") and re.search(r"CRASH|job died|did not return|IMPL-EXCEPTION|terminate called|std::(length_error|bad_alloc|out_of_range|bad_array_new_length)", l):
+                rp = next((x for x in lines[i + 1:i + 3] if x.startswith("VIOLATION")), "")
+                m = re.search(r"replay=(\S+)", rp)
+                crashes.append({"detail": l[:700], "replay": m.group(1) if m else None})
+        if crashes:
+            with open(sanlog + ".crashes", "a") as f:
+                for cr in crashes[:3]: f.write(json.dumps(dict(cr, sub=pid)) + "\n")
         return pid, p.returncode, p.stdout[-3000:]
     except subprocess.TimeoutExpired:
         return pid, 124, "TIMEOUT"
@@ -39,6 +52,7 @@ def check(tier, seed):
         if os.path.isfile(f): shutil.copy2(f, build)
     sanlog = os.path.join(build, "sanitizer.log")
     if os.path.exists(sanlog): os.remove(sanlog)
+    if os.path.exists(sanlog + ".crashes"): os.remove(sanlog + ".crashes")
     subs = SUBCHECKS if tier == "thorough" else SUBCHECKS
     results = {}
     with cf.ThreadPoolExecutor(max_workers=12) as ex:
@@ -78,6 +92,18 @@ def check(tier, seed):
         seen.add(key)
         c.violation("%s on a valid input in harness %s: %s" % ("sanitizer report", os.path.basename(r["cmd"][0]), kind),
                     {"component": os.path.basename(r["cmd"][0]), "cmd": r["cmd"], "case": r["case"], "report": r["report"]}, True)
+    ncr = 0
+    if os.path.exists(sanlog + ".crashes"):
+        for l in open(sanlog + ".crashes"):
+            try: cr = json.loads(l)
+            except Exception: continue
+            ncr += 1
+            if ncr > 3: continue
+            rep = {"component": "subcheck " + cr["sub"], "subcheck_replay": cr.get("replay"), "detail": cr["detail"]}
+            try: rep["subcheck_replay_content"] = json.load(open(cr["replay"]))
+            except Exception: pass
+            c.violation("the sanitizer build of %s's harness crashes / aborts / throws from the standard library's own checks on a valid input: %s" % (cr["sub"], cr["detail"][:400]), rep, True)
+    c.extra["crashes_of_sanitizer_builds"] = ncr
     return c.finish(
         assumptions=["runtime half is exploration, not proof: clang/gcc AddressSanitizer + UndefinedBehaviorSanitizer + LeakSanitizer semantics; uninitialised reads are not covered (no MSan runtime)",
                      "the MPI harness of C04 runs under ASan/UBSan with leak detection off (Open MPI keeps allocations until exit); the real-TBB harness is not rebuilt with ASan here (its TSan run belongs to C03's thorough tier)"],
